@@ -20,8 +20,8 @@ Proof. exists [New 0 0 0; Clear], 0. vm_compute. auto. Qed.
 (* C13-b: a query object evaluated again replays the domain it cached: the new instance is missing *)
 Lemma refuted_stale_variable :
   exists h k, adm_run wch wfuel init h = true /\
-              wout (wrun h) (ReEval k) = OInst [Some 0] /\
-              snd (spec_step wch wfuel (fst (spec_run wch wfuel a_init h)) (ReEval k)) = OInst [Some 0; Some 1].
+              wout (wrun h) (EvalV k) = OInst [Some 0] /\
+              snd (spec_step wch wfuel (fst (spec_run wch wfuel a_init h)) (EvalV k)) = OInst [Some 0; Some 1].
 Proof. exists [New 0 0 0; QueryE 0; New 1 1 1], 0. vm_compute. auto. Qed.
 
 (* C13-c = C20-a: an instance the program has dropped is still returned: the first query's cached domain holds it *)
@@ -41,6 +41,14 @@ Proof. simpl. rewrite app_length. simpl. lia. Qed.
 Lemma refuted_expr_growth :
   exists h, adm_run wch wfuel init h = true /\ live (wrun h) = [O 0 0 0] /\ user (wrun h) = [] /\ length (vars (wrun h)) = 3.
 Proof. exists [New 0 0 0; QueryE 0; Drop 0; QueryE 0; QueryE 1]. vm_compute. auto. Qed.
+
+(* non-vacuity of eval_correct: a variable declared, then the world changes, then the first evaluation *)
+Example declared_then_evaluated :
+  let h := [New 0 0 0; DeclV 0; New 1 1 1; Drop 0; Sweep; New 3 0 0] in
+  adm_run wch wfuel init h = true /\ no_clear h = true /\
+  nth_error (vars (wrun h)) 0 = Some (0, VPending) /\ live (wrun h) = [O 1 1 1; O 2 3 0] /\
+  wout (wrun h) (EvalV 0) = OInst [Some 1; Some 2].
+Proof. vm_compute. repeat split; reflexivity. Qed.
 
 (* regression examples of the repaired defects *)
 (* C13-a (a83ee6a): an instance of the diamond class 3 is returned once for a query on 0 *)
